@@ -7,6 +7,7 @@ import (
 	"path/filepath"
 	"sort"
 	"strings"
+	"sync"
 
 	"github.com/spaolacci/murmur3"
 
@@ -309,6 +310,37 @@ func c02Shape(c *c02Case) string {
 	return s
 }
 
+// c02KQ is one generated request with the hash key the harness' model gives it.
+type c02KQ struct {
+	q   reqSpec
+	key []byte
+}
+
+// c02CollectKeys collects up to 2 keys per residue class of murmur3_64 mod M.
+func c02CollectKeys(c *c02Case, g *vkit.Rand, M int) (classes [][]c02KQ, covered int) {
+	classes = make([][]c02KQ, M)
+	attempts, full := 0, 0
+	for full < M && attempts < 400*M+2000 {
+		attempts++
+		q, key := c02GenKey(c, g)
+		res := int(murmur3.Sum64(key) % uint64(M))
+		if len(classes[res]) >= 2 {
+			continue
+		}
+		if len(classes[res]) == 0 {
+			covered++
+		}
+		classes[res] = append(classes[res], c02KQ{q, key})
+		if len(classes[res]) == 2 {
+			full++
+		}
+		if covered == M && attempts > 40*M {
+			break
+		}
+	}
+	return classes, covered
+}
+
 func c02Check(r *vkit.Run, c *c02Case) {
 	g := vkit.NewRand(c.Seed)
 	exp, M := c02Expected(c)
@@ -336,32 +368,7 @@ func c02Check(r *vkit.Run, c *c02Case) {
 		r.Violation("build-rejected:"+c02Shape(c), "a valid configuration was rejected: "+berr.Error(), map[string]interface{}{"case": c})
 		return
 	}
-	// collect up to 2 keys per residue class
-	type kq struct {
-		q   reqSpec
-		key []byte
-	}
-	classes := make([][]kq, M)
-	covered, attempts := 0, 0
-	full := 0
-	for full < M && attempts < 400*M+2000 {
-		attempts++
-		q, key := c02GenKey(c, g)
-		res := int(murmur3.Sum64(key) % uint64(M))
-		if len(classes[res]) >= 2 {
-			continue
-		}
-		if len(classes[res]) == 0 {
-			covered++
-		}
-		classes[res] = append(classes[res], kq{q, key})
-		if len(classes[res]) == 2 {
-			full++
-		}
-		if covered == M && attempts > 40*M {
-			break
-		}
-	}
+	classes, covered := c02CollectKeys(c, g, M)
 	if covered < M {
 		r.Count("residues_not_covered", int64(M-covered))
 	}
@@ -563,18 +570,24 @@ func c02Gen(r *vkit.Run, i int) *c02Case {
 }
 
 func c02(r *vkit.Run) {
-	r.SetRule("configurations at three levels: rr = BalanceRR.Balance(WrrSticky) on 1-6 backends (weights 0..6, some down, string-vs-numeric address order, duplicate addresses only with Init where both entries exist); gslb-sticky = BalanceGslb with one positive-weight sub-cluster and SessionSticky; gslb-sub = 2-5 sub-clusters (weights incl. 0, negative, blackhole with positive weight). Each configuration is built 4 times (listed order + 3 random orderings of sub-clusters and backends) through Init, through BackendReload/Update (map order) or through JSON files read by GslbConfLoad/ClusterTableLoad. Keys: random bytes (rr) or requests for the four HashStrategy values with header / cookie / IPv4 / IPv6 / URI sources; requests without a deterministic key are not generated. The harness computes murmur3_64(key) mod M (M = 100*sum of eligible backend weights, or sum of positive sub-cluster weights) and asks 2 keys per residue class on all 4 instances. Non-trivial = >=2 eligible targets and all M classes covered; distinct = configuration")
+	r.SetRule("configurations at three levels: rr = BalanceRR.Balance(WrrSticky) on 1-6 backends (weights 0..6, some down, string-vs-numeric address order, duplicate addresses only with Init where both entries exist); gslb-sticky = BalanceGslb with one positive-weight sub-cluster and SessionSticky; gslb-sub = 2-5 sub-clusters (weights incl. 0, negative, blackhole with positive weight). Each configuration is built 4 times (listed order + 3 random orderings of sub-clusters and backends) through Init, through BackendReload/Update (map order) or through JSON files read by GslbConfLoad/ClusterTableLoad. Keys: random bytes (rr) or requests for the four HashStrategy values with header / cookie / IPv4 / IPv6 / URI sources; requests without a deterministic key are not generated. The harness computes murmur3_64(key) mod M (M = 100*sum of eligible backend weights, or sum of positive sub-cluster weights) and asks 2 keys per residue class on all 4 instances. Non-trivial = >=2 eligible targets and all M classes covered; distinct = configuration. " +
+		"RELOAD HISTORIES (1000, thorough 20000; rr = BalanceRR Init/Update; gslb-sticky and gslb-sub with SessionSticky = BalanceGslb BackendInit/BackendReload, all four strategies): Init with 1-5 backends per sub-cluster, then 1-4 reloads, per sub-cluster of kind weight / add / remove / replace (k removed, k added, same length, newcomer at the old position or at the end of the text) / mixed / noop-same / noop-reorder, a third of them with the list shuffled, with 0-3 sticky picks after each step (so the list was sorted for sticky selection before the next reload); distinct addresses, weights 0..4, some final backends down. Asserted: every key (2 per residue class of murmur3_64 mod M, padded to >=400 keys) gets the same target (sub-cluster, addr:port, error) on the balancer with the history as on a balancer freshly initialised with the final lists (sticky:history-dependent:<kind of last reload>), and on the balancer with the history each residue class has one target and each target owns M*w/W classes. History non-trivial = >=2 eligible targets and all classes covered; distinct = hash of (final configuration, steps)")
 	r.Assume("modulus M: backend weights are scaled x100 by BackendRR.Init, sub-cluster weights are not scaled")
 	r.Assume("duplicate addresses are compared by addr:port with summed weights; duplicates through Update (one entry per address survives, order dependent, docs silent) are excluded")
 	if r.Replay != "" {
 		var w struct {
-			Case c02Case `json:"case"`
+			Case c02Case      `json:"case"`
+			Hist *c02HistCase `json:"hist"`
 		}
 		if err := r.LoadReplay(&w); err != nil {
 			r.Inconclusive(err.Error())
 			return
 		}
-		c02Check(r, &w.Case)
+		if w.Hist != nil {
+			c02HistCheck(r, w.Hist)
+		} else {
+			c02Check(r, &w.Case)
+		}
 		r.SetMinDistinct(0)
 		return
 	}
@@ -585,6 +598,421 @@ func c02(r *vkit.Run) {
 	for _, k := range []string{"level_rr", "level_gslb-sticky", "level_gslb-sub", "build_init", "build_update", "build_loader", "strategy_0", "strategy_1", "strategy_2", "strategy_3"} {
 		if r.Counter(k) == 0 {
 			r.Inconclusive("no case of class " + k + " was evaluated")
+		}
+	}
+	c02Histories(r)
+}
+
+// ---------------------------------------------------------------------------
+// Reload histories: the balancer reaches the final backend lists through
+// Init + 1-4 reloads (same-length replacements, adds, removes, weight changes,
+// reorderings, no-op repeats, mixtures) with sticky picks in between (so that
+// the list has been sorted for sticky selection before the next reload), and
+// is compared with a freshly initialised balancer holding the final lists:
+// every key must get the same target ("a fixed function of its hash key and
+// of the set of eligible targets with their weights"), and the partition of
+// the residues must be exact on the balancer with the history.
+
+type c02Step struct {
+	Backends map[string][]bspec `json:"backends"` // sub-cluster -> list in configuration order
+	Picks    int                `json:"sticky_picks_after"`
+}
+
+type c02HistCase struct {
+	Case  c02Case   `json:"case"`  // final configuration (Build = "history"); the fresh instance is Init'ed with it
+	Steps []c02Step `json:"steps"` // Steps[0] is the Init, the last one carries Case's lists
+}
+
+func (h *c02HistCase) key() string {
+	b, _ := json.Marshal(struct {
+		C string
+		S []c02Step
+	}{h.Case.key(), h.Steps})
+	return string(b)
+}
+
+func c02TableOf(m map[string][]bspec) cluster_table_conf.ClusterBackend {
+	tc := cluster_table_conf.ClusterBackend{}
+	for name, bs := range m {
+		tc[name] = confOf(bs)
+	}
+	return tc
+}
+
+// c02BuildHist drives a new instance through the history.
+func c02BuildHist(h *c02HistCase, g *vkit.Rand) (*c02Instance, error) {
+	c := &h.Case
+	inst := &c02Instance{c: c}
+	picks := func(n int) {
+		for ; n > 0; n-- {
+			q, key := c02GenKey(c, g)
+			inst.ask(key, q)
+		}
+	}
+	if c.Level == "rr" {
+		name := c.Subs[0].Name
+		inst.rr = bal_slb.NewBalanceRR(name)
+		for i, st := range h.Steps {
+			if i == 0 {
+				inst.rr.Init(confOf(st.Backends[name]))
+			} else {
+				inst.rr.Update(confOf(st.Backends[name]))
+			}
+			picks(st.Picks)
+		}
+	} else {
+		gc := gslb_conf.GslbClusterConf{}
+		for _, s := range c.Subs {
+			gc[s.Name] = s.Weight
+		}
+		inst.bal = bal_gslb.NewBalanceGslb("cl")
+		if err := inst.bal.Init(gc); err != nil {
+			return nil, err
+		}
+		for i, st := range h.Steps {
+			if i == 0 {
+				inst.bal.BackendInit(c02TableOf(st.Backends))
+				inst.bal.SetGslbBasic(c.Basic.conf())
+			} else {
+				inst.bal.BackendReload(c02TableOf(st.Backends))
+			}
+			picks(st.Picks)
+		}
+	}
+	// availability of the final backends, as in c02Build
+	down := map[string]bool{}
+	for _, s := range c.Subs {
+		for i, b := range s.Backends {
+			if s.Down[i] {
+				down[s.Name+"/"+b.addrInfo()] = true
+			}
+		}
+	}
+	mark := func(sub string, snap bal_slb.VerifRR) {
+		for _, b := range snap.Backends {
+			if down[sub+"/"+b.Backend.AddrInfo] {
+				b.Backend.SetAvail(false)
+			}
+		}
+	}
+	if inst.rr != nil {
+		mark(c.Subs[0].Name, inst.rr.VerifSnapshot())
+	} else {
+		snap := inst.bal.VerifSnapshot()
+		for _, vs := range snap.Subs {
+			mark(vs.Name, vs.RR)
+		}
+	}
+	return inst, nil
+}
+
+// c02LastKinds classifies, per sub-cluster, the last reload of the history,
+// and tells whether the seeded shape occurred: sticky picks before a
+// same-length replacement whose newcomer does not sort last.
+func c02LastKinds(h *c02HistCase) (kinds map[string]string, replaceNotLast bool) {
+	kinds = map[string]string{}
+	n := len(h.Steps)
+	if n < 2 {
+		return kinds, false
+	}
+	prev, last := h.Steps[n-2], h.Steps[n-1]
+	for name, bs := range last.Backends {
+		k := histKind(prev.Backends[name], bs)
+		kinds[name] = k
+		if k == hkReplace && prev.Picks > 0 {
+			old := map[string]bool{}
+			for _, b := range prev.Backends[name] {
+				old[b.addrInfo()] = true
+			}
+			maxSurv, anyNew := "", false
+			for _, b := range bs {
+				if old[b.addrInfo()] && b.addrInfo() > maxSurv {
+					maxSurv = b.addrInfo()
+				}
+			}
+			for _, b := range bs {
+				if !old[b.addrInfo()] && b.addrInfo() < maxSurv {
+					anyNew = true
+				}
+			}
+			if anyNew {
+				replaceNotLast = true
+			}
+		}
+	}
+	return kinds, replaceNotLast
+}
+
+func c02HistCheck(r *vkit.Run, h *c02HistCase) {
+	c := &h.Case
+	g := vkit.NewRand(c.Seed)
+	exp, M := c02Expected(c)
+	if M == 0 || len(h.Steps) < 2 {
+		return
+	}
+	desc := func() interface{} { return map[string]interface{}{"hist": h} }
+	kinds, replaceNotLast := c02LastKinds(h)
+	mainKind := func(sub string) string {
+		if k, ok := kinds[sub]; ok {
+			return k
+		}
+		return "none"
+	}
+	var hist, fresh *c02Instance
+	var berr error
+	if try(r, desc, func() {
+		if hist, berr = c02BuildHist(h, g); berr != nil {
+			return
+		}
+		fc := *c
+		fc.Build = "init"
+		fresh, berr = c02Build(&fc, c02MakeOrdering(&fc, g, true), "hist")
+	}) {
+		return
+	}
+	if berr != nil {
+		r.Violation("sticky:history:build-rejected:"+c.Level, "a valid configuration was rejected: "+berr.Error(), desc())
+		return
+	}
+	classes, covered := c02CollectKeys(c, g, M)
+	nkeys := 0
+	for _, cl := range classes {
+		nkeys += len(cl)
+	}
+	for nkeys < 400 { // at least 400 keys per comparison
+		q, key := c02GenKey(c, g)
+		res := int(murmur3.Sum64(key) % uint64(M))
+		classes[res] = append(classes[res], c02KQ{q, key})
+		nkeys++
+	}
+	owner := make([]string, M)
+	owned := map[string]int{}
+	failed := false
+	if try(r, desc, func() {
+		for res := 0; res < M && !failed; res++ {
+			for j, x := range classes[res] {
+				tf := fresh.ask(x.key, x.q)
+				th := hist.ask(x.key, x.q)
+				if th != tf {
+					k := mainKind(tf.Sub)
+					r.Violation("sticky:history-dependent:"+k+":"+c.Level,
+						fmt.Sprintf("key %x maps to %s on a balancer that reached the backend lists through reloads (last reload of that sub-cluster: %s) but to %s on a freshly initialised balancer with the same lists", x.key, th, k, tf),
+						map[string]interface{}{"hist": h, "key": x.key, "req": x.q, "target_after_history": th, "target_fresh": tf, "last_reload_kinds": kinds})
+					failed = true
+					return
+				}
+				tgt := th.Addr
+				if c.Level == "gslb-sub" {
+					tgt = th.Sub
+				}
+				if _, ok := exp[tgt]; !ok {
+					r.Violation("sticky:history:ineligible-target:"+c.Level, fmt.Sprintf("key %x maps to %s which is not an eligible target of the final lists", x.key, th),
+						map[string]interface{}{"hist": h, "key": x.key, "req": x.q, "target": th})
+					failed = true
+					return
+				}
+				if j == 0 {
+					owner[res] = tgt
+					owned[tgt]++
+				} else if owner[res] != tgt {
+					r.Violation("sticky:history:residue-two-targets:"+c.Level,
+						fmt.Sprintf("after the reload history two keys with murmur3_64 mod %d = %d map to %s and %s", M, res, owner[res], tgt),
+						map[string]interface{}{"hist": h, "residue": res, "M": M, "key_a": classes[res][0].key, "key_b": x.key})
+					failed = true
+					return
+				}
+			}
+		}
+	}) || failed {
+		return
+	}
+	if covered == M {
+		names := make([]string, 0, len(exp))
+		for t := range exp {
+			names = append(names, t)
+		}
+		sort.Strings(names)
+		for _, t := range names {
+			if owned[t] != exp[t] {
+				r.Violation("sticky:history:residue-share:"+c.Level,
+					fmt.Sprintf("after the reload history target %s owns %d of %d residue classes, its weight share is %d", t, owned[t], M, exp[t]),
+					map[string]interface{}{"hist": h, "M": M, "owned": owned, "expected": exp})
+				break
+			}
+		}
+	}
+	r.Case(vkit.Hash64("hist", h.key()), len(exp) >= 2 && covered == M)
+	r.Count("hist_keys_compared", int64(nkeys))
+	r.Count("hist_level_"+c.Level, 1)
+	stickyBefore := h.Steps[len(h.Steps)-2].Picks > 0
+	seen := map[string]bool{}
+	for _, k := range kinds {
+		if !seen[k] {
+			seen[k] = true
+			r.Count("hist_last_reload_"+k, 1)
+			if stickyBefore {
+				r.Count("hist_last_reload_after_sticky_pick_"+k, 1)
+			}
+		}
+	}
+	if replaceNotLast {
+		r.Count("hist_replace_after_sticky_pick_newcomer_not_sorting_last", 1)
+	}
+	if c.Level != "rr" {
+		r.Count(fmt.Sprintf("hist_strategy_%d", c.Basic.Strategy), 1)
+	}
+	if replaceNotLast && len(exp) >= 2 && len(h.Steps) <= 3 {
+		// vkit's sample slots are used up by the configuration cases; history
+		// samples go into the evidence under reload_history_samples
+		c02HistSamples.Lock()
+		if len(c02HistSamples.s) < 3 {
+			c02HistSamples.s = append(c02HistSamples.s, map[string]interface{}{"hist": h, "last_reload_kinds": kinds, "M": M, "owned_after_history": owned})
+		}
+		c02HistSamples.Unlock()
+	}
+}
+
+var c02HistSamples struct {
+	sync.Mutex
+	s []interface{}
+}
+
+func c02HistGen(sub string) *histGen {
+	return &histGen{
+		maxN: 6,
+		fresh: func(g *vkit.Rand, cur []bspec) (bspec, bool) {
+			used := map[string]bool{}
+			for _, b := range cur {
+				used[b.addrInfo()] = true
+			}
+			for {
+				// string order differs from numeric order (10.0.0.9 vs 10.0.0.10)
+				b := bspec{Addr: fmt.Sprintf("10.%d.0.%d", g.Intn(3), g.Range(1, 120)), Port: []int{80, 8080, 9}[g.Intn(3)], Weight: g.Range(1, 4)}
+				if !used[b.addrInfo()] {
+					b.Name = fmt.Sprintf("%s-%s-%d", sub, b.Addr, b.Port)
+					return b, true
+				}
+			}
+		},
+		newWeight: func(g *vkit.Rand, old int) int {
+			if old != 0 && g.Chance(1, 8) {
+				return 0
+			}
+			for {
+				if w := g.Range(1, 4); w != old {
+					return w
+				}
+			}
+		},
+	}
+}
+
+func c02GenHist(r *vkit.Run, i int) *c02HistCase {
+	g := r.Rng("hist", i)
+	h := &c02HistCase{}
+	c := &h.Case
+	c.Seed = g.U64()
+	c.Build = "history"
+	c.Basic = gbasic{RetryMax: 2, CrossRetry: 0, Mode: "WRR", Strategy: g.Intn(4), Sticky: true}
+	if g.Bool() {
+		c.Basic.Header = "X-Client-Id"
+	} else {
+		c.Basic.Header = "Cookie:UID"
+	}
+	type subw struct {
+		name string
+		w    int
+	}
+	var subs []subw
+	switch g.Intn(6) {
+	case 0, 1, 2:
+		c.Level = "rr"
+		subs = []subw{{"s0", 1}}
+	case 3, 4:
+		c.Level = "gslb-sticky"
+		subs = []subw{{"s0", g.Range(1, 100)}}
+	default:
+		c.Level = "gslb-sub"
+		names := []string{"a.bj", "b.gz", "A.bj", "c10", "c9"}
+		p := g.Perm(len(names))
+		for k := g.Range(2, 3); k > 0; k-- {
+			w := g.Range(1, 30)
+			if g.Chance(1, 5) {
+				w = 0
+			}
+			subs = append(subs, subw{names[p[k]], w})
+		}
+		if subs[0].w == 0 {
+			subs[0].w = g.Range(1, 30)
+		}
+	}
+	cur := map[string][]bspec{}
+	for _, s := range subs {
+		hg := c02HistGen(s.name)
+		var bs []bspec
+		for k := g.Range(1, 5); k > 0; k-- {
+			b, _ := hg.fresh(g, bs)
+			bs = append(bs, b)
+		}
+		cur[s.name] = bs
+	}
+	h.Steps = append(h.Steps, c02Step{Backends: cur, Picks: g.Intn(4)})
+	for k := g.Range(1, 4); k > 0; k-- {
+		next := map[string][]bspec{}
+		for _, s := range subs {
+			want := histWant(g)
+			if len(subs) > 1 && g.Chance(1, 3) {
+				want = hkNoopSame
+			}
+			next[s.name] = histMutate(g, c02HistGen(s.name), cur[s.name], want)
+		}
+		h.Steps = append(h.Steps, c02Step{Backends: next, Picks: g.Intn(4)})
+		cur = next
+	}
+	h.Steps[len(h.Steps)-1].Picks = 0
+	for _, s := range subs {
+		bs := cur[s.name]
+		down := make([]bool, len(bs))
+		if c.Level != "gslb-sub" {
+			anyUp := false
+			for j, b := range bs {
+				down[j] = g.Chance(1, 7)
+				if !down[j] && b.Weight > 0 {
+					anyUp = true
+				}
+			}
+			if !anyUp {
+				for j, b := range bs {
+					if b.Weight > 0 {
+						down[j] = false
+						break
+					}
+				}
+			}
+		}
+		c.Subs = append(c.Subs, c02Sub{Name: s.name, Weight: s.w, Backends: bs, Down: down})
+	}
+	if c.Level != "rr" && g.Bool() {
+		c.Subs = append(c.Subs, c02Sub{Name: "GSLB_BLACKHOLE", Weight: 0})
+	}
+	return h
+}
+
+func c02Histories(r *vkit.Run) {
+	n := r.N(1000, 20000)
+	vkit.Parallel(n, 0, func(i int) {
+		c02HistCheck(r, c02GenHist(r, i))
+	})
+	r.Extra("reload_history_samples", c02HistSamples.s)
+	for _, k := range histKinds {
+		if r.Counter("hist_last_reload_after_sticky_pick_"+k) == 0 {
+			r.Inconclusive("no history whose last reload is of kind " + k + " after a sticky pick")
+		}
+	}
+	for _, k := range []string{"hist_level_rr", "hist_level_gslb-sticky", "hist_level_gslb-sub", "hist_replace_after_sticky_pick_newcomer_not_sorting_last",
+		"hist_strategy_0", "hist_strategy_1", "hist_strategy_2", "hist_strategy_3"} {
+		if r.Counter(k) == 0 {
+			r.Inconclusive("counter " + k + " is zero")
 		}
 	}
 }
